@@ -404,6 +404,19 @@ func (r *Report) finishProp(prop string, known []knownFinding, unclaimed []uncla
 			cover[res.Unit.coverStatus]++
 		}
 	}
+	var deadObls []string
+	reach := 0
+	for _, o := range mine {
+		switch o.GuardCover {
+		case "unsat":
+			deadObls = append(deadObls, o.Name)
+		case "sat":
+			reach++
+		}
+	}
+	if len(deadObls) > 40 {
+		deadObls = append(deadObls[:40], fmt.Sprintf("... and %d more", len(deadObls)-40))
+	}
 	var mutants []map[string]interface{}
 	killed := 0
 	if r.Tier == "thorough" && !r.NoMutants {
@@ -430,6 +443,8 @@ func (r *Report) finishProp(prop string, known []knownFinding, unclaimed []uncla
 			"functions":     funcs,
 			"known_findings_printed": knownPrinted,
 			"entry_assumption_cover_checks": cover,
+			"obligations_with_satisfiable_path_condition": reach,
+			"obligations_with_unsatisfiable_path_condition": deadObls,
 			"cross_checked_by_second_solver": r.CrossChecked,
 			"mutants":        mutants,
 			"mutants_killed": killed,
